@@ -27,6 +27,9 @@ func JSONToXValue(data []byte) XValue {
 	return jsonTypeToXValue(val, valType)
 }
 
+// numbers in JSON with exponents beyond this are refused
+const maxJSONNumberExponent = 1_000_000
+
 func jsonTypeToXValue(data []byte, valType jsonparser.ValueType) XValue {
 	switch valType {
 	case jsonparser.Null:
@@ -39,6 +42,10 @@ func jsonTypeToXValue(data []byte, valType jsonparser.ValueType) XValue {
 	case jsonparser.Number:
 		decimalVal, err := decimal.NewFromString(string(data))
 		if err == nil {
+			// a literal like 1e2000000000 is a dozen bytes but working with the value it denotes ties up the host
+			if exp := decimalVal.Exponent(); exp > maxJSONNumberExponent || exp < -maxJSONNumberExponent {
+				return NewXErrorf("number out of range")
+			}
 			return NewXNumber(decimalVal)
 		}
 	case jsonparser.Boolean:
